@@ -14,7 +14,7 @@ from harness.props import C05
 
 THEOREM_MODULES = ['ExaModel.Props.C10']
 DRIVERS = ['drv_session']
-TABLES = ['notify']
+TABLES = ['notify', 'pypeer']
 ASSUMPTIONS = C05.ASSUMPTIONS + [
     'a malformed OPEN / UPDATE arriving in a state that does not expect the message at all may be answered with its own class (2/x, 3/x) or with the state-machine class (5/x): both readings of RFC 4271 / RFC 6608 are accepted',
     'cease: any defined 6/x is accepted for an API teardown; graceful-restart teardown closes without NOTIFICATION by design (API-initiated, outside the property)',
